@@ -1,7 +1,7 @@
 """cross-registrations: a structural clause that several properties depend on is
 decided under each of them (same rule function, the property's own rule id)"""
 from . import rule
-from . import c04, c06, c07, c08, c13, c15, c16, c17, c20
+from . import c02, c03, c04, c05, c06, c07, c08, c13, c14, c15, c16, c17, c20
 
 # C02: arguments are evaluated by a per-call valuator in a bracketed argument mode
 rule('C02.6')(c06.per_evaluation_state)
@@ -47,3 +47,18 @@ rule('C17.8')(c06.specs_not_written)
 
 # C02: the argument valuator's memo must be per call (no class / module level containers)
 rule('C02.9')(c06.closed_inventory)
+
+
+# C08: argument mode never calls what it is given (C02.5)
+rule('C08.7')(c02.literal_passthrough)
+# C07: the evaluator hands the child frame to every dispatch target; the recycler returns the direct last child
+rule('C07.9')(c03.evaluator_dispatch)
+rule('C07.10')(c05.recycler)
+# C20 / C13: isolation and memo monotonicity
+rule('C20.14')(c13.isolation)
+rule('C13.9')(c20.memos_monotone)
+rule('C06.13')(c20.memos_monotone)
+# C15: a reducing spec keeps nothing on itself
+rule('C15.8')(c06.specs_not_written)
+# C18: wildcard steps are rendered as the methods that produce them
+rule('C18.9')(c14.code_agreement)
